@@ -98,7 +98,7 @@ def c08_extra(pid, tier, seed):
     nfree = 120 if tier == 'quick' else 3000
     for i in range(nfree):
         lines.append('crun %d %d %d %s' % (rng.randrange(1 << 30), rng.choice([2, 3, 4, 6, 8]), rng.choice([15, 30, 60]),
-                                           rng.choice(['60', '100', '200', '400', '60k', '100k'])))
+                                           rng.choice(['60', '100', '200', '400', '60k', '100k', '100v1', '200v1'])))
     # the start of a log's life under load (fresh directory, publisher + cursor + deleter of the oldest): no call may fail
     stress_iters = 150 if tier == 'quick' else 3000
     d = kv.workdir('conc-' + pid)
